@@ -102,9 +102,10 @@ class Gen:
                     var.append(AObj("Container", d))
             # an element that carries an OBIS code: the codes the module itself names (clock, meter type, ...) select special handling in the
             # normaliser, so each of them is tried with every kind of the other members
-            if "obis" in members and self.literals:
+            if "obis" in members and (self.literals or subs["obis"]):
                 others = [n_ for n_ in members if n_ != "obis"]
-                for lit in self.literals:
+                # (the other alternatives of the code itself -- absent, text -- are crossed with the other members in the same way)
+                for lit in list(self.literals) + list(subs["obis"]):
                     d0 = dict(base)
                     d0["obis"] = lit
                     var.append(AObj("Container", d0))
